@@ -46,6 +46,19 @@ add("C05", "property-based differential testing of the public API against a dire
     "numba and numpy backends (CUDA is exercised in C01/C07/C08); flat-top windows unreachable on the pinned tree (empty win_dict).",
     "DESIGN.md section 6 C05")
 
+add("C06", "property-based testing: analytic oracle (A^2/2 for a sinusoid, closed-form ENBW) + metamorphic scaling relations (amplitude c, sampling-rate relabelling a)",
+    "Sinusoids over the whole (A, phase, fractional bin, L, psll, order, backend) domain must give ps=A^2/2 within the image-lobe leakage bound 4*10^(-P/20); "
+    "ENBW/ps/asd identities are checked for every window; amplitude scaling and sampling-rate relabelling are metamorphic relations on arbitrary records "
+    "within the rounding budget (power-of-two relabelling: rtol 1e-12 and an unchanged plan).",
+    "Orders 1,2: sinusoid 1.5 bins further from 0/Nyquist than the main lobe (oracle correction recorded in DESIGN.md).",
+    "DESIGN.md section 6 C06")
+add("C07", "property-based testing with a rigorous per-bin Cauchy-Schwarz bound computed by a reference DFT (delay) and exact algebra (gain); differential across 3 backends",
+    "For y=g*x the estimated transfer function must equal g (coherence 1) within the rounding budget at every powered bin; for a d-sample delay "
+    "|Hxy*exp(+i w d)-1| is bounded by the data-derived edge-effect term B at every bin, which pins the sign of the phase wherever |sin(w d)|>=0.5 and B<=0.25; "
+    "numba, numpy and CUDA(simulator) must agree.",
+    "CUDA via simulator with small plans (cost ~1 s per analysis); bounded N (6e3 quick / 6e4 thorough).",
+    "DESIGN.md section 6 C07")
+
 MANIFEST = {
     "version": 1,
     "setup_cmd": "/venv/bin/python -m harness.setup",
